@@ -156,3 +156,18 @@ def same(expected, got, path=""):
             return None
         return f"{path}: expected {builtins.float(fe)!r}, got {builtins.float(fg)!r}"
     return None if expected == got else f"{path}: expected {expected!r:.200}, got {got!r:.200}"
+
+
+def dec(x):
+    """decode an input value written by ev() back to python (floats, fractions, bytes)"""
+    if isinstance(x, dict):
+        if set(x) == {"f"}:
+            return builtins.float.fromhex(x["f"])
+        if set(x) == {"q"}:
+            return Fraction(x["q"])
+        if set(x) == {"hex"}:
+            return builtins.bytes.fromhex(x["hex"])
+        return {k: dec(v) for k, v in x.items()}
+    if isinstance(x, list):
+        return [dec(v) for v in x]
+    return x
